@@ -62,15 +62,23 @@ pub enum CoverageError {
         computation: CompuId,
         duplicates: Vec<DtorName>,
     },
+    /// The binder of a value-level function or `let` does not cover its type.
+    NonExhaustiveValueBinder {
+        value: ValueId,
+        missing: Vec<CoveragePattern>,
+        truncated: bool,
+    },
 }
 
 impl CoverageError {
-    pub fn computation(&self) -> CompuId {
+    /// The term the error is reported at.
+    pub fn site(&self) -> TermId {
         match self {
             | Self::NonExhaustiveMatch { computation, .. }
             | Self::NonExhaustiveCopatternMatch { computation, .. }
             | Self::NonExhaustiveCoMatch { computation, .. }
-            | Self::DuplicateCoMatchArms { computation, .. } => *computation,
+            | Self::DuplicateCoMatchArms { computation, .. } => (*computation).into(),
+            | Self::NonExhaustiveValueBinder { value, .. } => (*value).into(),
         }
     }
 
@@ -93,7 +101,8 @@ impl CoverageError {
 impl fmt::Display for CoverageError {
     fn fmt(&self, f: &mut fmt::Formatter<'_>) -> fmt::Result {
         match self {
-            | Self::NonExhaustiveMatch { missing, truncated, .. } => {
+            | Self::NonExhaustiveMatch { missing, truncated, .. }
+            | Self::NonExhaustiveValueBinder { missing, truncated, .. } => {
                 Self::write_missing(f, "Non-exhaustive match", missing, *truncated)
             }
             | Self::NonExhaustiveCopatternMatch { missing, truncated, .. } => Self::write_missing(
@@ -127,10 +136,37 @@ impl<'a> CoverageChecker<'a> {
     }
 
     pub fn validate(&self) -> Vec<CoverageError> {
-        self.statics
+        let computations = self
+            .statics
             .compus
             .iter()
-            .flat_map(|(computation, term)| self.validate_computation(*computation, term))
+            .flat_map(|(computation, term)| self.validate_computation(*computation, term));
+        let values =
+            self.statics.values.iter().flat_map(|(value, term)| self.validate_value(*value, term));
+        computations.chain(values).collect()
+    }
+
+    /// The binder of a value-level function or `let` is a match with one arm, too.
+    fn validate_value(&self, value: ValueId, term: &Value) -> Vec<CoverageError> {
+        let (Value::VAbs(Abs(binder, _)) | Value::Let(Let { binder, .. })) = term else {
+            return Vec::new();
+        };
+        let matrix = vec![vec![MatrixPattern::from_typed(*binder, self.statics)]];
+        let mut missing = CoverageMatrix::new(self.statics).uncovered(matrix, 1, None);
+        let truncated = missing.len() > MAX_REPORTED_MISSING_PATTERNS;
+        missing.truncate(MAX_REPORTED_MISSING_PATTERNS);
+        let missing = missing
+            .into_iter()
+            .map(|row| {
+                let [pattern]: [CoveragePattern; 1] = row
+                    .try_into()
+                    .expect("single-scrutinee coverage must produce one witness pattern");
+                pattern
+            })
+            .collect::<Vec<_>>();
+        (!missing.is_empty())
+            .then_some(CoverageError::NonExhaustiveValueBinder { value, missing, truncated })
+            .into_iter()
             .collect()
     }
 
